@@ -68,6 +68,11 @@ def gen_arith(rnd, Tn, depth):
     ty = {'nat': NatType, 'int': IntType, 'real': RealType}[Tn]
     vs = [Var(n, ty) for n in 'xyz']
     nums = [Number(ty, k) for k in (0, 1, 2, 3)] + ([Number(ty, Fraction(1, 2))] if Tn == 'real' else [])
+    if Tn in ('real', 'int'):
+        # casts of natural-number expressions (truncated subtraction must survive normalisation of the enclosing real / int term)
+        nn, mm = Var('n', NatType), Var('m', NatType)
+        one, two, three = Nat(1), Nat(2), Nat(3)
+        nums += [T.of_nat(ty)(e) for e in (one - two, mm * (one - three), (two - three) + nn, nn - one, three - two, nn + mm)]
 
     def g(d):
         if d == 0 or rnd.random() < 0.25:
